@@ -7,7 +7,7 @@
          row groups of the FIRST file: partition_row_groups[rg.idx % partitions].push_back(rg)
          files expanded()[1..]: .skip(partition_idx).step_by(partitions)
    The file list is expanded once, at bind time (MultiFileProvider::expand_all).  Definitions only. *)
-From Coq Require Import List Arith Bool.
+From Coq Require Import List Arith Bool NArith.
 Import ListNotations.
 
 (* `.skip(k).step_by(p)`: drop k elements, then take one and drop p - 1, repeatedly *)
@@ -49,3 +49,45 @@ Section Scan.
   Definition pq_multi_scan (p : nat) (files : list F) : list R :=
     flat_map (fun k => pq_part_scan p k files) (seq 0 p).
 End Scan.
+
+(* ---- per-partition sequential processing with REUSABLE per-partition state.
+   Transcribed from crates/glaredb_core/src/functions/table/builtin/read_text.rs (poll_pull):
+   a partition owns one `buf: Vec<u8>` for all the files of its queue.  Per file:
+     Opening:  if projections.has_data_column(0) { state.buf.resize(size, 0) }     (size = file size)
+     Scanning: loop { read into &mut buf[buf_offset..] until 0 } ; content = the WHOLE buf
+   read_csv / read_parquet reuse a reader per partition in the same way (CsvReader, Reader::prepare). ---- *)
+Definition bytes := list N.
+
+(* Vec::resize(size, 0): truncate, or pad with zeros *)
+Definition resize (buf : bytes) (size : nat) : bytes := firstn size buf ++ repeat 0%N (size - length buf).
+(* the read loop: the file's bytes are copied over the front of buf, as many as fit *)
+Definition read_into (buf file : bytes) : bytes := firstn (length buf) file ++ skipn (length file) buf.
+
+(* one file; `pc` = the content column is projected.  Returns the new buffer and the emitted content *)
+Definition text_step (pc : bool) (buf file : bytes) : bytes * option bytes :=
+  if pc then let b := read_into (resize buf (length file)) file in (b, Some b)
+  else (read_into buf file, None).
+
+Fixpoint text_reader (pc : bool) (buf : bytes) (files : list bytes) : list (option bytes) :=
+  match files with
+  | [] => []
+  | f :: r => let '(b, out) := text_step pc buf f in out :: text_reader pc b r
+  end.
+
+(* a partition starts with `buf: Vec::new()` and reads its queue *)
+Definition text_part (pc : bool) (p k : nat) (files : list bytes) : list (option bytes) :=
+  text_reader pc [] (deal p k files).
+Definition text_multi (pc : bool) (p : nat) (files : list bytes) : list (option bytes) :=
+  flat_map (fun k => text_part pc p k files) (seq 0 p).
+
+(* the variant that only ever GROWS the buffer (`if buf.len() < size { buf.resize(size, 0) }`):
+   not what the code does; kept to show what the property excludes *)
+Definition resize_grow (buf : bytes) (size : nat) : bytes :=
+  if Nat.ltb (length buf) size then resize buf size else buf.
+Definition text_step_grow (buf file : bytes) : bytes * option bytes :=
+  let b := read_into (resize_grow buf (length file)) file in (b, Some b).
+Fixpoint text_reader_grow (buf : bytes) (files : list bytes) : list (option bytes) :=
+  match files with
+  | [] => []
+  | f :: r => let '(b, out) := text_step_grow buf f in out :: text_reader_grow b r
+  end.
